@@ -225,6 +225,9 @@ def judge(case, impl, model, spec, ctx):
         return [("violation", "the forwarded stream panicked")]
     t = impl.split()
     m = case.meta
+    if t[0] == "995":
+        return [("violation", "HTTP/%d %s, %s response %d, origin pieces %s: the exchange never ended: the same origin bytes are offered to the sink again and again without being consumed"
+                 % (m["version"], m["method"], m["mode"], m["status"], m["sizes"]))]
     code = untok(t[0])[0]
     origin = bytes(untok(t[1]))
     interim = untok(t[2])
